@@ -420,8 +420,14 @@ func (g *G) genTopology() {
 	g.topo = true
 	levels := []kaiv1alpha1.TopologyLevel{{NodeLabel: "zone"}, {NodeLabel: "rack"}, {NodeLabel: "kubernetes.io/hostname"}}
 	g.c.Objects.Topologies = append(g.c.Objects.Topologies, &kaiv1alpha1.Topology{ObjectMeta: metav1.ObjectMeta{Name: "topo"}, Spec: kaiv1alpha1.TopologySpec{Levels: levels}})
-	if g.p(0.3) {
-		g.c.Objects.Topologies = append(g.c.Objects.Topologies, &kaiv1alpha1.Topology{ObjectMeta: metav1.ObjectMeta{Name: "topo2"}, Spec: kaiv1alpha1.TopologySpec{Levels: levels[:g.in(1, 2)]}})
+	if g.p(0.6) {
+		// a second topology: a prefix of the first one, or one over other node labels (so that a sub-group can name a
+		// different topology than its parent)
+		l2 := levels[:g.in(1, 2)]
+		if g.p(0.6) {
+			l2 = pick(g, [][]kaiv1alpha1.TopologyLevel{{{NodeLabel: "disk"}}, {{NodeLabel: "gen"}}, {{NodeLabel: "gen"}, {NodeLabel: "kubernetes.io/hostname"}}, {{NodeLabel: "disk"}, {NodeLabel: "rack"}}})
+		}
+		g.c.Objects.Topologies = append(g.c.Objects.Topologies, &kaiv1alpha1.Topology{ObjectMeta: metav1.ObjectMeta{Name: "topo2"}, Spec: kaiv1alpha1.TopologySpec{Levels: l2}})
 	}
 }
 
@@ -741,6 +747,11 @@ func (g *G) genWorkloads() {
 		if cloneClass == "" && g.topo && g.p(g.k.PTopology) {
 			tc := enginev2alpha2.TopologyConstraint{Topology: pick(g, []string{"topo", "topo", "topo", "topo-missing"})}
 			lvl := pick(g, []string{"zone", "rack", "kubernetes.io/hostname", "no-such-level"})
+			if len(g.c.Objects.Topologies) > 1 && g.p(0.35) {
+				t2 := g.c.Objects.Topologies[1]
+				tc.Topology = t2.Name
+				lvl = t2.Spec.Levels[g.r.IntN(len(t2.Spec.Levels))].NodeLabel
+			}
 			if g.p(0.75) {
 				tc.RequiredTopologyLevel = lvl
 			} else {
@@ -750,7 +761,13 @@ func (g *G) genWorkloads() {
 				idx := g.r.IntN(len(pg.Spec.SubGroups))
 				pg.Spec.SubGroups[idx].TopologyConstraint = &tc
 				if g.p(0.5) {
-					pg.Spec.TopologyConstraint = enginev2alpha2.TopologyConstraint{Topology: "topo", RequiredTopologyLevel: "zone"}
+					pg.Spec.TopologyConstraint = enginev2alpha2.TopologyConstraint{Topology: "topo", RequiredTopologyLevel: pick(g, []string{"zone", "zone", "rack"})}
+					if len(g.c.Objects.Topologies) > 1 && g.p(0.6) {
+						// nested constraint over ANOTHER topology than the parent's
+						t2 := g.c.Objects.Topologies[1]
+						tc.Topology = t2.Name
+						tc.RequiredTopologyLevel, tc.PreferredTopologyLevel = t2.Spec.Levels[g.r.IntN(len(t2.Spec.Levels))].NodeLabel, ""
+					}
 				}
 			} else {
 				pg.Spec.TopologyConstraint = tc
@@ -1145,7 +1162,7 @@ func (g *G) preplace(w *workload) bool {
 			hasSubTopo = true
 		}
 	}
-	if w.pg.Spec.TopologyConstraint.Topology == "topo-missing" || hasSubTopo {
+	if (w.pg.Spec.TopologyConstraint.Topology != "" && w.pg.Spec.TopologyConstraint.Topology != "topo") || hasSubTopo {
 		ok = false
 	}
 	if !ok {
